@@ -32,6 +32,15 @@ def _large(tier, seed):
                    3 * nw - 2 * ov + 1, 5 * nw + 7] + [int(x) for x in rng.integers(1, 6 * nw, 6)]:
             if ns >= 1:
                 out.add((ns, nw, ov))
+    # long signals (1e5 .. 3e6 samples) whose last window brings only 1..3 new samples, or misses 1..3: a real remainder, not round-off
+    for nw, ov in [(1000, 0), (1000, 100), (4096, 2048), (30000, 0), (600, 576), (65536, 2048)]:
+        hop = nw - ov
+        for k in (100, 101, 999, 3000):
+            base = nw + k * hop
+            if base > 3_200_000:
+                continue
+            for r in (-2, -1, 0, 1, 2, 3, hop - 1):
+                out.add((base + r, nw, ov))
     n = 150 if tier == "quick" else 1500
     for _ in range(n):
         nw = int(rng.integers(65, 5000))
